@@ -181,7 +181,7 @@ def ancestors(dump, tid):
 
 def run(ctx):
     ctx.check_theorems("ActsModel.Props.C07")
-    n = 250 if ctx.tier == "quick" else 6000
+    n = 500 if ctx.tier == "quick" else 6000
     scs = [gen_scenario(ctx.seed, i) for i in range(n)]
     results = ctx.harness("run", scs)
     models = ctx.driver([opcorr.model_request(sc) for sc in scs], tag="dm")
